@@ -135,7 +135,7 @@ PROPS["C14"] = {"units": [
 PROPS["C13"] = {"units": [
     plain_unit("regress", "vnete2e", "^TestRegressC13", overlay="plain"),
     rapid_unit("router-addresses", "vnete2e", "^TestC13RouterAddresses$", 1500, 16 * 20000, overlay="plain"),
-    rapid_unit("host-binds", "vnete2e", "^TestC13HostBinds$", 3000, 16 * 40000, overlay="plain"),
+    rapid_unit("host-binds", "vnete2e", "^TestC13HostBinds$", 8000, 16 * 40000, overlay="plain"),
 ]}
 
 PROPS["C17"] = {"units": [
